@@ -663,3 +663,52 @@ def instance_obligation():
             info["failure"] = "static obligation on the current source fails in %s: %s" % (f, o[-1200:])
             return False, info
     return True, info
+
+
+# ---------------------------------------------------------------- thorough tier extras
+
+def coqchk_property(pid):
+    """independent re-check of the compiled property file and everything it depends on (coqchk -o)"""
+    rc, out = sh("timeout 2400 coqchk -silent -o -Q %s GT GT.Properties.%s" % (os.path.join(COQ, "theories"), pid), cwd=COQ, check=False, timeout=2500)
+    axioms = re.findall(r"^\* Axioms:\n((?:.*\n)*?)(?=\n|\* )", out, flags=re.M)
+    return rc == 0, {"coqchk_exit": rc, "coqchk_tail": out[-1500:]}
+
+
+def _coq_str(b):
+    return "[" + ";".join("ch %d" % x for x in b) + "]"
+
+
+def kernel_crosscheck(out_cases, answers, limit=300):
+    """evaluate a sub-sample of `out` cases with the kernel's vm_compute (no extraction, no OCaml) and compare
+    with the answers of the extracted runner.  Returns (n checked, n mismatching, log)."""
+    import random as _r
+    idx = [i for i, c in enumerate(out_cases) if c.startswith("out ") and c.split(" ")[1] in ("d", "j") and len(c) < 4000]
+    _r.Random(7).shuffle(idx)
+    idx = idx[:limit]
+    if not idx:
+        return 0, 0, ""
+    lines = ["From Coq Require Import List Ascii Arith Bool.", "From GT Require Import Base.GoStr Tree.Tree Tree.Grower Api.Simple Api.Faults.",
+             "Import ListNotations.", "Definition cases : list (cfg * str * bool * str) := ["]
+    rows = []
+    for i in idx:
+        t = out_cases[i].split(" ")
+        e, d, n, ld, li, md, mi, exts, inp = t[1:10]
+        exl = [] if exts == "-" else [unhx(x) for x in exts.split(",")]
+        cfg = "{| c_bf := {| last_d := %s; last_i := %s; mid_d := %s; mid_i := %s |}; c_enc := %s; c_dry := %s; c_exts := [%s]; c_noiter := %s |}" % (
+            _coq_str(unhx(ld)), _coq_str(unhx(li)), _coq_str(unhx(md)), _coq_str(unhx(mi)), "EncJSON" if e == "j" else "EncDefault",
+            "true" if d == "1" else "false", ";".join(_coq_str(x) for x in exl), "true" if n == "1" else "false")
+        res, chunks = answers[i].split(" ")
+        bytes_ = b"".join(unhx(c[1:]) for c in chunks.split(";") if c.startswith("t")) if chunks != "-" else b""
+        rows.append("(%s, %s, %s, %s)" % (cfg, _coq_str(unhx(inp)), "true" if res == "ok" else "false", _coq_str(bytes_)))
+    lines.append(";\n".join(rows))
+    lines += ["].", "Definition agrees (c : cfg * str * bool * str) : bool :=", "  let '(cf, inp, ok, bytes) := c in",
+              "  let '(cs, r) := output_md cf inp in", "  Bool.eqb (match r with Ok _ => true | _ => false end) ok && str_eqb (chunk_bytes cs) bytes.",
+              "Definition mismatches : nat := List.length (filter (fun c => negb (agrees c)) cases).", "Eval vm_compute in mismatches."]
+    d = os.path.join(scratch(), "kx")
+    os.makedirs(d, exist_ok=True)
+    f = os.path.join(d, "cases.v")
+    open(f, "w").write("\n".join(lines) + "\n")
+    rc, out = sh("timeout 1800 coqc -Q %s GT %s" % (os.path.join(COQ, "theories"), f), check=False, timeout=1900)
+    m = re.search(r"=\s*(\d+)\s*:\s*nat", out)
+    bad = int(m.group(1)) if (rc == 0 and m) else len(idx)
+    return len(idx), bad, out[-600:]
